@@ -254,7 +254,7 @@ var ruleGlobals = &Rule{
 		}
 		out.Counts["module_globals"] = nglob
 		out.Floors["module_globals"] = 3
-		nw, nargs := 0, 0
+		nw, nargs, nstorage := 0, 0, 0
 		for _, fn := range mods {
 			if isInit(fn) {
 				continue
@@ -288,13 +288,36 @@ var ruleGlobals = &Rule{
 					if !ok {
 						continue
 					}
-					for _, a := range ci.Common().Args {
+					for ai, a := range ci.Common().Args {
 						nargs++
 						if g, ok := a.(*ssa.Global); ok && g.Pkg != nil && strings.HasPrefix(g.Pkg.Pkg.Path(), modPath) {
 							key := fmt.Sprintf("%s passes &%s to a call", fnName(fn), g.Name())
 							out.viol(key, p.pos(ins.Pos()), fnName(fn),
 								"address of package-level variable "+g.Name()+" escapes into a call; the callee may write it",
 								reach.path(p, fn)...)
+							continue
+						}
+						// the storage of a package-level variable handed on as a
+						// slice of it or a pointer into it (`scratch[:0]`,
+						// `&table[i]`): fine for a callee that only reads
+						if g := globalStorage(a); g != nil {
+							if _, isBuiltin := ci.Common().Value.(*ssa.Builtin); isBuiltin {
+								continue // append/copy are in the write census
+							}
+							nstorage++
+							key := fmt.Sprintf("%s hands the storage of %s to %s", fnName(fn), g.Name(), calleeName(ci.Common()))
+							idx := ai
+							callee := ci.Common().StaticCallee()
+							if ci.Common().IsInvoke() {
+								callee = nil
+							}
+							if why := p.paramMayBeWritten(callee, idx, 0); why == "" {
+								out.ok(key, p.pos(ins.Pos()), fnName(fn), "the callee only reads through that parameter")
+							} else {
+								out.viol(key, p.pos(ins.Pos()), fnName(fn),
+									"the memory of package-level variable "+g.Name()+" is handed to a callee that may write it ("+why+"): concurrent calls share it",
+									reach.path(p, fn)...)
+							}
 						}
 					}
 				}
@@ -302,9 +325,122 @@ var ruleGlobals = &Rule{
 		}
 		out.Counts["writes_examined"] = nw
 		out.Counts["call_arguments_examined"] = nargs
+		out.Counts["global_storage_arguments"] = nstorage
 		out.Floors["writes_examined"] = 50
 		return out
 	},
+}
+
+// globalStorage: v is a slice of, or a pointer into, the memory of a
+// package-level variable of the module (no load in between): `arr[:n]`,
+// `&arr[i]`, `&g.field`.
+func globalStorage(v ssa.Value) *ssa.Global {
+	for i := 0; i < 6; i++ {
+		switch x := v.(type) {
+		case *ssa.Slice:
+			v = x.X
+		case *ssa.IndexAddr:
+			v = x.X
+		case *ssa.FieldAddr:
+			v = x.X
+		case *ssa.ChangeType:
+			v = x.X
+		case *ssa.Global:
+			if i > 0 && x.Pkg != nil && strings.HasPrefix(x.Pkg.Pkg.Path(), modPath) {
+				return x
+			}
+			return nil
+		default:
+			return nil
+		}
+	}
+	return nil
+}
+
+var paramWrittenMemo = map[string]string{}
+
+// paramMayBeWritten: "" when fn (any package, body required) provably never
+// writes through its parameter number idx — no store, append, copy, in-place
+// library call or escape whose target derives from it, and no callee that may
+// do so; otherwise a reason.
+func (p *Prog) paramMayBeWritten(fn *ssa.Function, idx, depth int) string {
+	if fn == nil {
+		return "callee not resolved"
+	}
+	if fn.Blocks == nil {
+		return "no body for " + fnName(fn)
+	}
+	if depth > 5 {
+		return "call depth"
+	}
+	// receiver first in Params for methods: idx counts Call.Args, which for a
+	// static method call include the receiver
+	if idx >= len(fn.Params) {
+		if fn.Signature.Variadic() {
+			idx = len(fn.Params) - 1
+		} else {
+			return "argument position"
+		}
+	}
+	key := fmt.Sprintf("%p/%d", fn, idx)
+	if r, ok := paramWrittenMemo[key]; ok {
+		return r
+	}
+	paramWrittenMemo[key] = "" // recursion: assume no write until shown
+	q := fn.Params[idx]
+	from := func(v ssa.Value) bool {
+		if v == nil {
+			return false
+		}
+		for _, o := range p.provenance(fn, v).Origins {
+			if o.Val == ssa.Value(q) {
+				return true
+			}
+		}
+		return false
+	}
+	why := ""
+	for _, w := range writesOf(fn) {
+		if from(w.Base) {
+			why = w.Kind + " in " + fnName(fn)
+			break
+		}
+		if w.Kind == "store" && from(w.Val) {
+			if _, local := w.Base.(*ssa.Alloc); !local {
+				why = "kept by " + fnName(fn)
+				break
+			}
+		}
+	}
+	if why == "" {
+	outer:
+		for _, b := range fn.Blocks {
+			for _, ins := range b.Instrs {
+				ci, ok := ins.(ssa.CallInstruction)
+				if !ok {
+					continue
+				}
+				if _, isB := ci.Common().Value.(*ssa.Builtin); isB {
+					continue
+				}
+				for ai, a := range ci.Common().Args {
+					if !from(a) {
+						continue
+					}
+					callee := ci.Common().StaticCallee()
+					if ci.Common().IsInvoke() {
+						callee = nil
+					}
+					if r := p.paramMayBeWritten(callee, ai, depth+1); r != "" {
+						why = r
+						break outer
+					}
+				}
+			}
+		}
+	}
+	paramWrittenMemo[key] = why
+	return why
 }
 
 var ambientFuncs = map[string]string{
